@@ -151,12 +151,16 @@ def check(value):
         raise ZeroDivisionError
     if value > 5:
         raise RuntimeError('big')
+    if value == 4:
+        raise ImportError(name='module_name', path='module_path')
+    if value == 5:
+        raise OSError(*())
     return None
-for value in (-1, 0, 3, 9):
+for value in (-1, 0, 3, 9, 4, 5):
     try:
         obs(check(value))
     except Exception as error:
-        obs((type(error).__name__, error.args))
+        obs((type(error).__name__, error.args, getattr(error, 'name', None), getattr(error, 'path', None)))
 '''),
     ('with_stmt', '''
 class Manager:
@@ -278,6 +282,11 @@ obs(list(islice(chain([1], [2, 3]), 2)))
 obs(coll.OrderedDict([(1, 2)])[1])
 obs(json.dumps([re.sub('a', 'b', 'aa')]))
 obs(sys.version_info[0])
+def use_dotted_import():
+    import xml.dom.minidom
+    import os.path
+    return (xml.__name__, xml.dom.minidom.__name__, os.path.sep, os.sep)
+obs(use_dotted_import())
 '''),
     ('constant_arith', '''
 SECONDS = 60 * 60 * 24
@@ -315,6 +324,23 @@ def accumulate(amount):
 obs(accumulate(2))
 obs(accumulate(3))
 obs(total)
+'''),
+    ('multi_global', '''
+def setup_state():
+    global first_state, second_state, third_state, fourth_state
+    first_state = 'one'
+    second_state = 'two'
+    third_state = 'three'
+    fourth_state = 'four'
+def read_state():
+    def inner():
+        nonlocal alpha_local, beta_local, gamma_local
+        alpha_local, beta_local, gamma_local = gamma_local, alpha_local, beta_local
+    alpha_local, beta_local, gamma_local = first_state, second_state, third_state
+    inner()
+    return (alpha_local, beta_local, gamma_local, fourth_state)
+setup_state()
+obs(read_state())
 '''),
     ('class_scope', '''
 value = 'module'
